@@ -88,11 +88,13 @@ def run(ctx):
   q = ctx.quick
   s = ctx.seed + 1
   designers = ['random', 'quasi_random', 'shuffled_grid', 'eagle', 'nsga2', 'cmaes']
-  spaces = [('d01', 'c5'), ('dlog', 'i015'), ('d-55', 'd01')]
+  spaces = [('d01', 'c5'), ('dlog', 'i015'), ('d-55', 'd01'), ('d01', 'c5', 'x2')]
   jobs = []
   for name in designers:
     for sp in spaces:
       if name == 'cmaes' and sp != ('d-55', 'd01'):
+        continue
+      if sp == ('d01', 'c5', 'x2') and name not in ('eagle', 'nsga2', 'random'):
         continue
       for seed in (s, s + 1):
         jobs.append([name, list(sp), seed])
@@ -105,9 +107,11 @@ def run(ctx):
   pert_sets = [[]] + [[p] for p in PERTS]
   if not q:
     pert_sets += [list(c) for c in itertools.combinations(PERTS, 2)]
-  tasks = [{'perturbations': ps, 'jobs': jobs, 'benchmarks': benchmarks, 'rounds': 3, 'batch': 2, 'hashseed': 0} for ps in pert_sets]
-  tasks.append({'perturbations': [], 'jobs': jobs, 'benchmarks': benchmarks, 'rounds': 3, 'batch': 2, 'hashseed': 4242})
-  tasks.append({'perturbations': [], 'jobs': jobs, 'benchmarks': benchmarks, 'rounds': 3, 'batch': 2, 'hashseed': 0})   # plain repeat
+  R = 9 if q else 14     # rounds x batch 2: well past the point where eagle's pool is full / NSGA-II mutates
+  tasks = [{'perturbations': ps, 'jobs': jobs, 'benchmarks': benchmarks, 'rounds': R, 'batch': 2, 'hashseed': 0} for ps in pert_sets]
+  for hs in (4242, 1, 987654321):
+    tasks.append({'perturbations': [], 'jobs': jobs, 'benchmarks': benchmarks, 'rounds': R, 'batch': 2, 'hashseed': hs})
+  tasks.append({'perturbations': [], 'jobs': jobs, 'benchmarks': benchmarks, 'rounds': R, 'batch': 2, 'hashseed': 0})   # plain repeat
   results = list(ctx.pmap('child', tasks))
   base = results[0]
   if base['result'] is None:
